@@ -112,8 +112,11 @@ def apply_op(sketch, op):
         ks = [unhx(k) for k in op[1]]
         form = (len(ks) + (len(ks[0]) if ks else 0)) % 9 if FORMS else 0
         if form == 8 and ks and all(0 < len(k) <= 8 and not k.endswith(b"\x00") for k in ks):
-            # a NumPy array of fixed-width byte strings: the unchanged library refuses it (TypeError at the first key, nothing
-            # applied); a tree that accepts it must treat it as the list of its elements
+            # a NumPy array of fixed-width byte strings (its elements are np.bytes_, a bytes subclass): a tree that accepts it must
+            # treat it as the list of its elements; one that refuses it (TypeError at the first key, nothing applied) gets the list
+            from . import state
+
+            state.warm_plain_bytes(sketch)
             try:
                 sketch.update(np.array(ks, dtype="S8"))
             except TypeError:
